@@ -554,4 +554,218 @@ Section Complete.
     { unfold tc_inv. destruct greedy; [left; left; reflexivity|reflexivity]. }
     unfold chain_fuel. cbn [length]. pose proof (total_zeros_le st). nia.
   Qed.
+
+  (* ---- the events, one after the other ------------------------------------------- *)
+  Definition eend (ev : event) : nat := snd ev.
+
+  (* a chain of events from a head that starts at s0 up to the event k, s..e *)
+  Fixpoint left (L : list event) (k s e s0 : nat) : Prop :=
+    match k with
+    | O => In (0, s, e) L /\ s0 = s
+    | S k' => In (S k', s, e) L /\ exists s' e', left L k' s' e' s0 /\ in_gap (gp k') e' s = true
+    end.
+
+  Lemma left_in : forall L k s e s0, left L k s e s0 -> In (k, s, e) L.
+  Proof. intros L k s e s0 H. destruct k; apply H. Qed.
+
+  Lemma left_mono : forall L L', incl L L' -> forall k s e s0, left L k s e s0 -> left L' k s e s0.
+  Proof.
+    intros L L' Hi. induction k as [|k IH]; intros s e s0 H; cbn [left] in *.
+    - destruct H as [H1 H2]. split; [apply Hi; exact H1|exact H2].
+    - destruct H as [H1 [s' [e' [H2 H3]]]]. split; [apply Hi; exact H1|]. exists s', e'. split; [apply IH; exact H2|exact H3].
+  Qed.
+
+  Lemma in_gap_le : forall g a b, in_gap g a b = true -> a <= b.
+  Proof.
+    intros [mn mx|mn] a b H; cbn [in_gap] in H.
+    - apply andb_true_iff in H. destruct H as [H _]. apply Nat.leb_le in H. lia.
+    - apply Nat.leb_le in H. lia.
+  Qed.
+
+  Section Events.
+    Variable P : list event.               (* the events handled so far *)
+    Variable ev : event.                   (* the next one *)
+    Hypothesis Hord : forall x, In x P -> eend x <= eend ev.
+    Hypothesis Hne : forall k s e, In (k, s, e) (P ++ [ev]) -> s < e /\ k <= n.
+
+    (* an old event is not reached through the new one *)
+    Lemma left_old : forall k s e s0, left (P ++ [ev]) k s e s0 -> In (k, s, e) P -> left P k s e s0.
+    Proof.
+      induction k as [|k IH]; intros s e s0 H Hin; cbn [left] in *.
+      - destruct H as [_ H]. split; assumption.
+      - destruct H as [_ [s' [e' [H2 H3]]]]. split; [exact Hin|]. exists s', e'. split; [|exact H3].
+        apply IH; [exact H2|].
+        pose proof (left_in _ _ _ _ _ H2) as Hi. apply in_app_iff in Hi. destruct Hi as [Hi|[Hi|[]]]; [exact Hi|].
+        exfalso. pose proof (Hord _ Hin) as Ho. rewrite Hi in Ho. unfold eend in Ho. cbn [snd] in Ho.
+        apply in_gap_le in H3. destruct (Hne (S k) s e) as [Hlt _]; [apply in_app_iff; left; exact Hin|]. lia.
+    Qed.
+
+    Lemma event_dec : forall (a b : event), {a = b} + {a <> b}.
+    Proof. decide equality; [apply Nat.eq_dec|decide equality; apply Nat.eq_dec]. Qed.
+
+    (* a chain that ends with the new event: its earlier part is old *)
+    Lemma left_new : forall k s e s0, left (P ++ [ev]) (S k) s e s0 -> ~ In (S k, s, e) P ->
+      ev = (S k, s, e) /\ exists s' e', left P k s' e' s0 /\ in_gap (gp k) e' s = true.
+    Proof.
+      intros k s e s0 H Hnin. cbn [left] in H. destruct H as [H1 [s' [e' [H2 H3]]]].
+      apply in_app_iff in H1. destruct H1 as [H1|[H1|[]]]; [contradiction|]. split; [exact H1|].
+      exists s', e'. split; [|exact H3]. apply left_old; [exact H2|].
+      pose proof (left_in _ _ _ _ _ H2) as Hi. apply in_app_iff in Hi. destruct Hi as [Hi|[Hi|[]]]; [exact Hi|].
+      rewrite H1 in Hi. inversion Hi. lia.
+    Qed.
+  End Events.
+
+  (* the invariant between two events *)
+  Definition OI (P : list event) (st : ustate) (ml : match_list) : Prop :=
+    sorted ml /\ levels st /\ closedD st ml /\
+    (forall k s e s0, k < n -> left P k s e s0 -> In (s, e) (map se (stv st k))) /\
+    (forall k p, In p (map se (stv st k)) -> In (k, fst p, snd p) P) /\
+    (forall s e s0, left P n s e s0 -> reported ml s0).
+
+  Lemma wvd_of_in_gap : forall st k g s s' e', In (s', e') (map se (stv st k)) -> s' <= e' ->
+    in_gap g e' s = true -> within_valid_distance st k s g = true.
+  Proof.
+    intros st k g s s' e' Hin Hle Hg. unfold within_valid_distance. unfold stv in Hin.
+    destruct (u_get st k) as [v|]; [|destruct Hin]. apply existsb_exists.
+    apply in_map_iff in Hin. destruct Hin as [m [E Hm]]. exists m. split; [exact Hm|].
+    inversion E; subst s' e'. destruct g as [mn mx|mn]; cbn [in_gap] in Hg; [exact Hg|].
+    apply Nat.leb_le in Hg. apply Nat.leb_le. lia.
+  Qed.
+
+  Lemma closed_push : forall st ml P k s e,
+    closedD st ml -> k < n ->
+    (forall k0 p, In p (map se (stv st k0)) -> In (k0, fst p, snd p) P) ->
+    (forall x, In x P -> eend x <= e) ->
+    (forall k0 s0 e0, In (k0, s0, e0) P -> s0 < e0) ->
+    closedD (u_push st k (mkUM s e 0)) ml.
+  Proof.
+    intros st ml P k s e Hcd Hk HB Hord Hne k1 m1 Hm1 Hmk.
+    assert (Hold : In m1 (stv st k1)).
+    { rewrite stv_push in Hm1. destruct (Nat.eqb k k1) eqn:Ek; [|exact Hm1].
+      apply Nat.eqb_eq in Ek. subst k1. apply in_app_iff in Hm1. destruct Hm1 as [H|[<-|[]]]; [exact H|].
+      exfalso. apply Hmk. reflexivity. }
+    destruct (Hcd k1 m1 Hold Hmk) as [Hc Hr]. split; [|exact Hr].
+    destruct k1 as [|k1']; [exact I|]. cbn [closed] in *. intros m' Hm' Hg.
+    rewrite stv_push in Hm'. destruct (Nat.eqb k k1') eqn:Ek; [|apply Hc; assumption].
+    apply Nat.eqb_eq in Ek. subst k1'. apply in_app_iff in Hm'. destruct Hm' as [H|[<-|[]]]; [apply Hc; assumption|].
+    exfalso. cbn [um_e] in Hg. apply in_gap_le in Hg.
+    assert (Hin : In (S k, um_s m1, um_e m1) P) by (apply (HB (S k) (se m1)); apply in_map; exact Hold).
+    pose proof (Hord _ Hin) as Ho. unfold eend in Ho. cbn [snd] in Ho. pose proof (Hne _ _ _ Hin). lia.
+  Qed.
+
+  Lemma left_conn : forall P st ml s e s0, OI P st ml ->
+    forall k1 s1 e1, k1 < n -> left P k1 s1 e1 s0 -> conn s e st k1 (s1, e1) -> exists e0, conn s e st 0 (s0, e0).
+  Proof.
+    intros P st ml s e s0 [_ [_ [_ [HA _]]]]. induction k1 as [|k1 IH]; intros s1 e1 Hk Hl Hc.
+    - cbn [left] in Hl. destruct Hl as [_ ->]. exists e1. exact Hc.
+    - cbn [left] in Hl. destruct Hl as [_ [s' [e' [Hl Hg]]]].
+      apply (IH s' e'); [lia|exact Hl|].
+      apply (conn_step s e st k1 (s', e') (s1, e1)); [lia|apply (HA k1 s' e' s0); [lia|exact Hl]|exact Hg|exact Hc].
+  Qed.
+
+  Lemma stv_push_incl : forall st k m k1 x, In x (map se (stv st k1)) -> In x (map se (stv (u_push st k m) k1)).
+  Proof.
+    intros st k m k1 x H. rewrite stv_push. destruct (Nat.eqb k k1) eqn:E; [|exact H].
+    apply Nat.eqb_eq in E. subst k1. rewrite map_app. apply in_app_iff. left. exact H.
+  Qed.
+
+  Lemma oi_step : forall P k s e st ml,
+    OI P st ml ->
+    (forall x, In x P -> eend x <= e) ->
+    (forall k0 s0 e0, In (k0, s0, e0) (P ++ [(k, s, e)]) -> s0 < e0 /\ k0 <= n) ->
+    OI (P ++ [(k, s, e)]) (fst (handle_piece_match pieces k s e (st, ml))) (snd (handle_piece_match pieces k s e (st, ml))).
+  Proof.
+    intros P k s e st ml HOI Hord Hne.
+    pose proof HOI as [Hso [Hlv [Hcd [HA [HB HE]]]]].
+    assert (Hord' : forall x, In x P -> eend x <= eend (k, s, e)) by exact Hord.
+    assert (Hke : s < e /\ k <= n) by (apply Hne; apply in_app_iff; right; left; reflexivity).
+    assert (HneP : forall k0 s0 e0, In (k0, s0, e0) P -> s0 < e0)
+      by (intros k0 s0 e0 H; apply (Hne k0 s0 e0); apply in_app_iff; left; exact H).
+    (* the consequences shared by all cases *)
+    assert (Hold : forall k1 s1 e1 s0, left (P ++ [(k, s, e)]) k1 s1 e1 s0 -> In (k1, s1, e1) P -> left P k1 s1 e1 s0)
+      by (intros; eapply left_old; eassumption).
+    assert (Hnew : forall k1 s1 e1 s0, left (P ++ [(k, s, e)]) k1 s1 e1 s0 -> ~ In (k1, s1, e1) P -> (k1, s1, e1) = (k, s, e)).
+    { intros k1 s1 e1 s0 Hl Hnin. pose proof (left_in _ _ _ _ _ Hl) as Hi. apply in_app_iff in Hi.
+      destruct Hi as [Hi|[Hi|[]]]; [contradiction|symmetry; exact Hi]. }
+    assert (Hpred : forall k' s0, k = S k' -> left (P ++ [(k, s, e)]) k s e s0 -> ~ In (k, s, e) P ->
+              within_valid_distance st k' s (gp k') = true /\
+              exists s' e', left P k' s' e' s0 /\ in_gap (gp k') e' s = true).
+    { intros k' s0 -> Hl Hnin. destruct (left_new P _ Hord' Hne _ _ _ _ Hl Hnin) as [_ [s' [e' [Hl' Hg]]]].
+      split; [|exists s', e'; split; assumption].
+      assert (Hk' : k' < n) by lia.
+      pose proof (HA k' s' e' s0 Hk' Hl') as Hin.
+      apply (wvd_of_in_gap st k' (gp k') s s' e' Hin); [|exact Hg].
+      pose proof (HB k' (s', e') Hin) as HinP. cbn [fst snd] in HinP. apply HneP in HinP. lia. }
+    destruct (piece_exists k (proj2 Hke)) as [p Ep].
+    unfold handle_piece_match. rewrite Ep.
+    (* a push of the new match at a level below n *)
+    assert (Hpush : k < n -> (forall s0, left (P ++ [(k, s, e)]) k s e s0 -> ~ In (k, s, e) P -> True) ->
+              OI (P ++ [(k, s, e)]) (u_push st k (mkUM s e 0)) ml).
+    { intros Hk _. split; [exact Hso|]. split.
+      { intros k1 m Hm. rewrite stv_push in Hm. destruct (Nat.eqb k k1) eqn:Ek; [|apply Hlv; exact Hm].
+        apply Nat.eqb_eq in Ek. subst k1. apply in_app_iff in Hm. destruct Hm as [Hm|[<-|[]]]; [apply Hlv; exact Hm|].
+        split; [exact Hk|left; reflexivity]. }
+      split; [apply (closed_push st ml P k s e Hcd Hk HB Hord HneP)|].
+      split.
+      { intros k1 s1 e1 s0 Hk1 Hl. destruct (in_dec event_dec (k1, s1, e1) P) as [Hi|Hi].
+        - apply stv_push_incl. apply (HA k1 s1 e1 s0 Hk1). apply Hold; assumption.
+        - pose proof (Hnew _ _ _ _ Hl Hi) as E. inversion E; subst k1 s1 e1.
+          rewrite stv_push, Nat.eqb_refl, map_app. apply in_app_iff. right. left. reflexivity. }
+      split.
+      { intros k1 q Hq. rewrite stv_push in Hq. apply in_app_iff.
+        destruct (Nat.eqb k k1) eqn:Ek; [|left; apply HB; exact Hq].
+        apply Nat.eqb_eq in Ek. subst k1. rewrite map_app in Hq. apply in_app_iff in Hq.
+        destruct Hq as [Hq|[<-|[]]]; [left; apply HB; exact Hq|right; left; reflexivity]. }
+      intros s1 e1 s0 Hl. destruct (in_dec event_dec (n, s1, e1) P) as [Hi|Hi].
+      - apply (HE s1 e1 s0). apply Hold; assumption.
+      - pose proof (Hnew _ _ _ _ Hl Hi) as E. inversion E. lia. }
+    (* nothing recorded: the new match is not reached by any chain *)
+    assert (Hskip : (forall k' s0, k = S k' -> left (P ++ [(k, s, e)]) k s e s0 -> ~ In (k, s, e) P -> False) ->
+              k <> 0 -> OI (P ++ [(k, s, e)]) st ml).
+    { intros Hno Hk0. split; [exact Hso|]. split; [exact Hlv|]. split; [exact Hcd|]. split.
+      { intros k1 s1 e1 s0 Hk1 Hl. destruct (in_dec event_dec (k1, s1, e1) P) as [Hi|Hi].
+        - apply (HA k1 s1 e1 s0 Hk1). apply Hold; assumption.
+        - pose proof (Hnew _ _ _ _ Hl Hi) as E. inversion E; subst k1 s1 e1.
+          destruct k as [|k']; [contradiction|]. exfalso. eapply Hno; [reflexivity|exact Hl|exact Hi]. }
+      split; [intros k1 q Hq; apply in_app_iff; left; apply HB; exact Hq|].
+      intros s1 e1 s0 Hl. destruct (in_dec event_dec (n, s1, e1) P) as [Hi|Hi].
+      - apply (HE s1 e1 s0). apply Hold; assumption.
+      - pose proof (Hnew _ _ _ _ Hl Hi) as E. inversion E; subst k s1 e1.
+        exfalso. destruct n as [|n']; [lia|]. eapply Hno; [reflexivity|exact Hl|exact Hi]. }
+    destruct k as [|k'].
+    - (* a head *)
+      rewrite (Hhead _ Ep). cbn [fst snd]. apply Hpush; [lia|auto].
+    - rewrite (Htail _ _ Ep).
+      destruct (within_valid_distance st k' s (gp k')) eqn:Ew.
+      + rewrite (Hlast _ _ Ep). destruct (Nat.eqb (S k') n) eqn:En.
+        * (* the last piece: the walk *)
+          apply Nat.eqb_eq in En.
+          assert (Hgn : u_get st (n - 1) <> None).
+          { replace (n - 1) with k' by lia. unfold within_valid_distance in Ew. destruct (u_get st k'); [discriminate|discriminate]. }
+          replace (verify_chain_of_matches pieces st ml (S k') s e) with (verify_chain_of_matches pieces st ml n s e)
+            by (rewrite En; reflexivity).
+          pose proof (verify_complete st ml s e Hso Hlv Hcd Hgn) as [Hso' [Hsk' [Hlv' [Hcd' [Hconn Hmono]]]]].
+          set (r := verify_chain_of_matches pieces st ml n s e) in *.
+          split; [exact Hso'|]. split; [exact Hlv'|]. split; [exact Hcd'|]. split.
+          { intros k1 s1 e1 s0 Hk1 Hl. rewrite (Hsk' k1). destruct (in_dec event_dec (k1, s1, e1) P) as [Hi|Hi].
+            - apply (HA k1 s1 e1 s0 Hk1). apply Hold; assumption.
+            - pose proof (Hnew _ _ _ _ Hl Hi) as E. inversion E. lia. }
+          split; [intros k1 q Hq; rewrite (Hsk' k1) in Hq; apply in_app_iff; left; apply HB; exact Hq|].
+          intros s1 e1 s0 Hl. destruct (in_dec event_dec (n, s1, e1) P) as [Hi|Hi].
+          { apply Hmono. apply (HE s1 e1 s0). apply Hold; [exact Hl|exact Hi]. }
+          pose proof (Hnew _ _ _ _ Hl Hi) as E. inversion E; subst s1 e1.
+          assert (Hl' : left (P ++ [(S k', s, e)]) (S k') s e s0) by (rewrite En at 2; exact Hl).
+          assert (Hi' : ~ In (S k', s, e) P) by (rewrite En; exact Hi).
+          destruct (Hpred k' s0 eq_refl Hl' Hi') as [_ [s' [e' [Hlp Hg]]]].
+          assert (Hc : conn s e st k' (s', e')).
+          { apply (conn_step s e st k' (s', e') (s, e)); [lia|apply (HA k' s' e' s0); [lia|exact Hlp]|exact Hg|].
+            rewrite En. apply conn_tail. }
+          destruct (left_conn P st ml s e s0 HOI k' s' e' ltac:(lia) Hlp Hc) as [e0 Hc0].
+          apply (Hconn (s0, e0) Hc0).
+        * (* a middle piece: recorded *)
+          apply Nat.eqb_neq in En. cbn [fst snd]. apply Hpush; [lia|auto].
+      + (* not within the gap of any recorded match of the previous piece *)
+        cbn [fst snd]. apply Hskip; [|discriminate].
+        intros k'' s0 E Hl Hi. inversion E; subst k''. destruct (Hpred k' s0 eq_refl Hl Hi) as [Hw _]. congruence.
+  Qed.
 End Complete.
